@@ -1,15 +1,24 @@
 """C38 - The ONNX protobuf decoder terminates and never panics.
 
-1. ProtoReader.tla (contract variant) model-checked: for every decoder behaviour over a contract-abiding
-   reader the position is monotone, accepted lengths are within the input, operations <= OpBound(n).
-2. ProtoReader.tla (implementation-shaped variant, wrapping arithmetic at word size 2^4/2^5) explored by
-   TLC, which prints every step that breaks the contract as a CANDIDATE (field kind, length class
-   relative to the position) -> scaled to 64-bit length prefixes by the harness.
-3. vh-load proto: valid ONNX documents with every length prefix replaced by the boundary classes and
-   the TLC candidates, truncations, byte flips, random bytes, over-long varints, deep nesting; every
-   input decoded with a tracing reader beneath the crate's LimitReader (buffer, file, sniffing) and
-   black-box (parse_buf, parse_file, is_onnx_model, Model::load) in child processes.
-4. Trace_Proto.tla validates the recorded trace: the ProtoContract predicates decide."""
+1. ProtoReader.tla model-checked. The reader reads a varint as the code does (1-byte limit check, then up to
+   MaxVar bytes), so "position beyond the limit of an embedded message" is a reachable state (MC_ProtoReader_overrun
+   shows it). For the reader with the code's bounds test (end_of: checked_add) TLC checks, for every decoder
+   behaviour: position monotone, accepted lengths within the input, an over-long region ends in an error, no
+   operation succeeds beyond a limit (InLimit), operations <= OpBound(n), termination. The alternative bounds test
+   `len <= end - position` is REFUTED by TLC (InLimit) - it relies on position <= end.
+2. ProtoReader.tla, pinned-tree variant (wrapping arithmetic at word size 2^4/2^5) explored by TLC, which prints
+   every step that breaks the contract as a CANDIDATE (field kind, length class relative to the position)
+   -> scaled to 64-bit length prefixes by the harness.
+3. vh-load proto: valid ONNX documents with every length prefix replaced by the boundary classes and the TLC
+   candidates, truncations, byte flips, random bytes, over-long varints, deep nesting, and the STRADDLE family
+   (a 2..10-byte tag / varint value / length / packed element that starts inside an embedded message or packed
+   field and ends after its declared end, at every nesting level of the schema, with further bytes behind);
+   every input decoded with a tracing reader beneath the crate's LimitReader (buffer, file, sniffing) and
+   black-box (parse_buf, parse_file, is_onnx_model, Model::load) in child processes - by TWO builds of the
+   harness: cargo profile `release` (overflow checks off) and `checked` (release + overflow-checks +
+   debug-assertions; a sample of the random families, all structured families).
+4. Trace_Proto.tla validates both recorded traces: the ProtoContract predicates decide; the build profile is
+   part of every signature. A decode that returns a message for a straddle input is reported as DRIFT."""
 import json
 import os
 
@@ -21,15 +30,28 @@ CFG = "load/Trace_Proto.cfg"
 
 def run(ctx):
     ctx.build(["vh-load"])
+    ctx.build(["vh-load"], profile="checked")
     suffix = "" if ctx.quick else "_t"
     ctx.tlc_mc("load/MC_ProtoReader", "load/MC_ProtoReader_contract%s.cfg" % suffix, workers=4, timeout=1800,
-               label="contract reader: Monotone, InBounds, Linear, Terminates")
+               label="reader with the code's bounds test: Monotone, InBounds, OverlongIsError, InLimit, Linear, Terminates")
     trace = ctx.path("proto.ndjson")
     if ctx.replay:
         case = ctx.replay["case"]
-        ctx.harness("vh-load", ["proto", "--out", trace, "--only-case", json.dumps(case), "--hang-samples", 1000])
+        prof = case.get("build", "release")
+        ctx.harness("vh-load", ["proto", "--out", trace, "--only-case", json.dumps(case), "--hang-samples", 1000],
+                    profile=prof)
         res = ctx.tlc_trace(SPEC, CFG, trace, timeout=1800)
-        return finish(ctx, trace, res, 0)
+        return finish(ctx, [(trace, res)], 0)
+    # the state "position beyond the limit" is reachable; the subtracting bounds test is refuted
+    refuted = [("load/MC_ProtoReader_subtract.cfg", "InLimit")]
+    if not ctx.quick:
+        refuted.insert(0, ("load/MC_ProtoReader_overrun.cfg", "NoOverrun"))
+    for cfg, inv in refuted:
+        info, out = ctx.tlc_mc("load/MC_ProtoReader", cfg, workers=4, timeout=1800, expect_ok=False,
+                               label="expected counterexample: %s" % inv)
+        if "Invariant %s is violated" % inv not in out:
+            raise vlib.ToolError("%s: expected TLC to refute %s" % (cfg, inv))
+        info["expected_counterexample"] = inv
     cands = ctx.path("cands.jsonl")
     ncand = ctx.tlc_generate("load/MC_ProtoReader", "load/MC_ProtoReader_impl%s.cfg" % suffix, cands,
                              workers=4, timeout=3000)
@@ -40,9 +62,13 @@ def run(ctx):
     ctx.cov["candidate_prints"] = ncand
     ctx.harness("vh-load", ["proto", "--out", trace, "--cands", cands], timeout=3000)
     res = ctx.tlc_trace(SPEC, CFG, trace, timeout=3000, heap="12g")
+    trace_c = ctx.path("proto_checked.ndjson")
+    ctx.harness("vh-load", ["proto", "--out", trace_c, "--cands", cands, "--scale", 35 if ctx.quick else 50],
+                timeout=3000, profile="checked")
+    res_c = ctx.tlc_trace(SPEC, CFG, trace_c, timeout=3000, heap="12g")
     if not ctx.quick or os.environ.get("VERIF_SELFTEST"):
         selftest(ctx, trace)
-    finish(ctx, trace, res, len(distinct))
+    finish(ctx, [(trace, res), (trace_c, res_c)], len(distinct))
 
 
 def selftest(ctx, trace):
@@ -96,48 +122,76 @@ def selftest(ctx, trace):
     ctx.log("binding self-test: 4 corrupted events of valid inputs rejected by Trace_Proto")
 
 
-def finish(ctx, trace, res, ncand):
+def finish(ctx, runs, ncand):
     def nontrivial(r):
-        return r["gen"].split(":")[0] in ("mutlen", "truncate", "pinned", "longvarint", "deepnest") or r["n"] >= 8
+        return r["gen"].split(":")[0] in ("mutlen", "truncate", "pinned", "longvarint", "deepnest", "straddle") or r["n"] >= 8
 
-    total, distinct, dnt, samples = vlib.scan_cases(trace, ["gen", "lenclass", "site", "n", "b"], nontrivial)
-    for s in samples:
-        s.pop("b", None)
-    st = res["stats"]
+    st = {}
+    bad = []
+    badtotal = 0
+    inputs = dnt = 0
+    builds = []
+    for trace, res in runs:
+        total, distinct, d, samples = vlib.scan_cases(trace, ["build", "gen", "lenclass", "site", "n", "b"], nontrivial)
+        for s in samples:
+            s.pop("b", None)
+        ctx.add_samples(samples, cap=6)
+        inputs += total
+        dnt += d
+        for k, v in res["stats"].items():
+            st[k] = st.get(k, 0) + v
+        bad += res["bad"]
+        badtotal += res["badtotal"]
+        if samples:
+            builds.append(samples[0]["build"])
     ctx.cov["evaluations"] = st.get("runs", 0)
     ctx.cov["distinct_nontrivial"] = dnt
     ctx.cov["traces_validated_against_impl"] = st.get("runs", 0)
-    ctx.cov["inputs"] = total
+    ctx.cov["inputs"] = inputs
+    ctx.cov["builds"] = builds
     ctx.cov["reader_operations_validated"] = st.get("ops", 0)
     ctx.cov["inputs_with_overlong_field"] = st.get("overlong_sites", 0)
+    ctx.cov["straddle_inputs"] = st.get("straddle_cases", 0)
+    ctx.cov["straddle_overruns_observed"] = st.get("straddle_overruns", 0)
+    if not ctx.replay and st.get("straddle_cases", 0) and st.get("straddle_overruns", 0) == 0:
+        raise vlib.ToolError("vacuous straddle family: no varint was observed crossing a region end")
+    if st.get("straddle_accepted", 0):
+        ctx.drift("%d decode(s) of an input in which a varint straddles the end of an embedded message / packed field "
+                  "returned a message (the reader lets the varint through and only then reports the end); a strict "
+                  "reader (ProtoReader.tla: nothing succeeds beyond a limit) predicts an error - allowed by the "
+                  "property (message or error), reported as drift" % st["straddle_accepted"])
     if st.get("load_unattributed", 0):
         ctx.cov["notes"].append("%d Model::load runs failed (panic/abort/timeout) without a decoder-level cause; "
                                 "not judged here (C05 judges the loader)" % st["load_unattributed"])
-    ctx.add_samples(samples)
     cases = {}
 
     def lookup(rec):
-        cid = rec.get("case", {}).get("id")
+        key = (rec.get("case", {}).get("build"), rec.get("case", {}).get("id"))
         if not cases:
-            with open(trace) as f:
-                for line in f:
-                    if '"ev":"case"' in line:
-                        r = json.loads(line)
-                        cases[r["id"]] = r
-        return cases.get(cid)
+            for trace, _ in runs:
+                with open(trace) as f:
+                    for line in f:
+                        if '"ev":"case"' in line:
+                            r = json.loads(line)
+                            cases[(r["build"], r["id"])] = r
+        return cases.get(key)
 
-    ctx.judge(res["bad"], "vh-load proto", SPEC, CFG, case_lookup=lookup, badtotal=res["badtotal"])
+    ctx.judge(bad, "vh-load proto", SPEC, CFG, case_lookup=lookup, badtotal=badtotal)
     ctx.finish(
-        rule="evaluations = (input, api) runs, 7 apis per input; inputs = distinct byte strings: 6 valid ONNX "
-             "documents x every length-delimited field x (21 boundary length classes + TLC candidates), "
-             "truncations, byte flips, random, over-long varints, deep nesting; non-trivial = mutated/truncated/"
-             "special inputs and other inputs of >= 8 bytes",
+        rule="evaluations = (input, api, build) runs, 7 apis per input, 2 builds (release; checked = release + "
+             "overflow-checks + debug-assertions, on a sample of the random families); inputs = byte strings: 6 valid "
+             "ONNX documents x every length-delimited field x (23 boundary length classes + TLC candidates), "
+             "truncations, byte flips, random, over-long varints, deep nesting, and the straddle family (19 message "
+             "paths + 3 packed fields x tag/value/length/element x widths x split points x parent covers or not); "
+             "non-trivial = mutated/truncated/special inputs and other inputs of >= 8 bytes",
         assumptions=[
             "traced apis observe the decoder through the public ReadValue trait beneath LimitReader; "
             "parse_buf/parse_file/is_onnx_model/Model::load are observed black-box (outcome only)",
             "non-termination is observed as > 0.3 s of CPU time (twice: in the batch and re-run alone) on inputs of "
             "< 1 KB, or as more than OpBound(n) = 4n+16 reader operations in the traced runs",
             "children run with RLIMIT_AS = 8 GiB: an allocation failure is the decoder asking for > 8 GiB for an input of < 1 KB",
+            "build profiles exercised: harness profile `release` (opt-level 3, overflow checks and debug assertions off) "
+            "and `checked` (the same plus overflow-checks and debug-assertions); a panic in either is a violation",
             "Model::load failures are judged only when a traced run of the same input shows a decoder-level cause",
         ],
         exhaustive=False)
